@@ -358,7 +358,13 @@ def check(prop, tier):
     results, vresults, nresults = [], [], []
     undecided, violations, known_hits = [], [], []
     nviol = []
+    native_future, native_pool = None, None
     try:
+        # the native bounded stand-ins build and run in their own target directory (target/release; Kani uses target/kani):
+        # they are started first and joined after the Kani and Verus stages, so that their wall time overlaps with the solvers'
+        if nsel:
+            native_pool = cf.ThreadPoolExecutor(max_workers=1)
+            native_future = native_pool.submit(lambda: [run_native(scr, u, tier, seed) for u in nsel])
         # ---------------- Kani ----------------
         if sel:
             pkgs = {}
@@ -451,8 +457,9 @@ def check(prop, tier):
                     violations.append((u, None, vr, vr["failed_obligations"]))
 
         # ---------------- native bounded stand-ins ----------------
-        for u in nsel:
-            nr = run_native(scr, u, tier, seed)
+        native_runs = native_future.result() if native_future else []
+        native_future = None
+        for u, nr in zip(nsel, native_runs):
             nresults.append(nr)
             log("[native] %-40s rc=%s results=%s violations=%d %.1fs" % (u["unit"], nr["rc"], nr["results"], len(nr["violations"]), nr["wall_s"]))
             if nr["timed_out"]:
@@ -532,6 +539,14 @@ def check(prop, tier):
         write_evidence(prop, ev)
         return 2
     finally:
+        if native_future is not None:
+            # an earlier stage bailed out: let the stand-in thread finish before the scratch copy disappears under it
+            try:
+                native_future.result()
+            except Exception:
+                pass
+        if native_pool is not None:
+            native_pool.shutdown(wait=True)
         scr.cleanup()
 
 
